@@ -1,5 +1,6 @@
 //! vf_coll — engine for C08 (generalized hash tries), C09 (algebra law checkers, semiring
 //! applications) and C10 (variadic collections). See /verif/DESIGN.md §3.
+#[macro_use]
 mod c08;
 mod c09;
 mod c10;
